@@ -999,7 +999,18 @@ def gen_w2_aead(batch, res, sb, watch, use_fork):
         if outcomes:
             local.nontrivial.add("w2aead:%s:%s:%s" % (suite, _lenb(n, c), "+".join(sorted(outcomes))))
 
-    sb.run(cases, fn, lambda item: _case_of(batch, item[0]), setup=lambda: _suite_objs(suite), use_fork=use_fork, group_of=group_of)
+    mk = lambda item: _case_of(batch, item[0])  # noqa: E731
+    if batch.get("only") is not None:
+        sb.run(cases, fn, mk, setup=lambda: _suite_objs(suite), use_fork=use_fork, group_of=group_of)
+        return
+    n_near = 1601
+    seen0 = res.counters.get("violations_seen", 0)
+    sb.run(Indexed(lens, range(n_near)), fn, mk, setup=lambda: _suite_objs(suite), use_fork=use_fork, group_of=group_of)
+    if res.counters.get("violations_seen", 0) > seen0:
+        # an implementation that accepts 1501..1600 bytes would overrun by kilobytes on the long inputs
+        res.count("w2_far_cases_skipped_after_near_violation", len(lens) - n_near)
+    else:
+        sb.run(Indexed(lens, range(n_near, len(lens))), fn, mk, setup=lambda: _suite_objs(suite), use_fork=use_fork, group_of=group_of)
 
 
 def _apply_payload_lens(hlen, c, mode):
